@@ -35,6 +35,7 @@ func C02(r *core.Run) {
 	// numbers and names: same provenance rules as C13
 	provNumbers(r)
 	provEnumNumbers(r)
+	enumNumberingAgrees(r)
 	provNoReorder(r)
 	provTailAppend(r)
 	provNames(r)
